@@ -63,6 +63,10 @@ def impl_view(r):
 # ---- model --------------------------------------------------------------------------------------
 
 def model_req(case, executed):
+    if case.get("ndirs", 1) > 1:
+        return {"m": "c09", "op": "runpath", "sched": executed, "ndirs": case["ndirs"],
+                "procs": [{"kind": p["kind"], "lp": p.get("lp"), "tries": p.get("tries", 0), "path": p.get("path", [0]),
+                           "explicit": p.get("explicit", True)} for p in case["procs"]]}
     return {"m": "c09", "op": "run", "sched": executed,
             "procs": [{"kind": p["kind"], "lp": p.get("lp"), "tries": p.get("tries", 0)} for p in case["procs"]]}
 
@@ -70,6 +74,9 @@ def model_req(case, executed):
 def model_view(ans):
     if "bad-op" in ans:
         return {"bad-op": ans["bad-op"]}
+    if "listing" in ans:        # several stacks
+        listing = [([G.LOCKDIR] + sorted(x for x in l if x != G.LOCKDIR)) if l else [] for l in ans["listing"]]
+        return {"trace": ans["steps"], "outcomes": ans["pcs"], "residue": listing if any(listing) else []}
     residue = ([G.LOCKDIR] + sorted(ans["files"])) if ans["dir"] else []
     return {"trace": ans["steps"], "outcomes": ans["pcs"], "residue": residue}
 
@@ -90,6 +97,29 @@ def lifetimes_overlap(r, n):
     return False
 
 
+def residue_class(case, r):
+    """D12f iff every lock file left behind belongs to a process with several stacks in its path whose giveLocks
+    (or the giving-up inside a failed takeLocks) raised, or which left through the trepidation exit and releases
+    only at exit (the exit handler is not registered on that path)."""
+    if case.get("ndirs", 1) < 2:
+        return None
+    files = [f for l in r["residue"] for f in l if f != G.LOCKDIR]
+    if not files:
+        return None
+    for f in files:
+        if not f[1:].isdigit():
+            return None
+        i = int(f[1:])
+        sp = case["procs"][i]
+        out = r["outcomes"][i]
+        held = (r.get("held") or [None] * len(case["procs"]))[i]
+        raised = out.startswith("failed_release:") or (out.startswith("failed:") and out != "failed:RuntimeError")
+        trep = held is not None and len(held) < len(sp.get("path", [0])) and not sp.get("explicit", True)
+        if len(sp.get("path", [0])) < 2 or not (raised or trep):
+            return None
+    return "D12f"
+
+
 def oracle(case, r):
     """Yields (clause, finding class or None, detail) for every clause the real run breaks."""
     n = len(case["procs"])
@@ -107,7 +137,7 @@ def oracle(case, r):
             a, b, "unlocked" if v["class"] == "D12c" else "holding", v["step"])
         yield ("mutex", v["class"], what)
     if all(o in ("done",) or o.startswith("failed") for o in r["outcomes"]) and r["residue"]:
-        yield ("no_residue", None, "every process has finished and %r is left" % (r["residue"],))
+        yield ("no_residue", residue_class(case, r), "every process has finished and %r is left" % (r["residue"],))
     for o in r["outcomes"]:
         if o.startswith("crash") or o.startswith("pending") or o == "timeout":
             yield ("terminates", None, "process ended as %s" % o)
@@ -222,6 +252,40 @@ def random_case(rng, n):
     return c
 
 
+def path_case(rng):
+    """several stacks: every process locks its own ordered selection of them"""
+    nd = rng.choice([2, 2, 2, 3])
+    n = rng.choice([2, 2, 3, 3, 4])
+    procs = []
+    for i in range(n):
+        k = "E" if rng.random() < 0.55 else "S"
+        lp = rng.randrange(i) if (i > 0 and rng.random() < 0.2) else None
+        path = rng.sample(range(nd), rng.randint(1, nd))
+        if rng.random() < 0.5:
+            path.sort()
+        pr = P(k, lp=lp, tries=rng.choice([0, 0, 1]), explicit=rng.random() < 0.8)
+        pr["path"] = path
+        procs.append(pr)
+    L = rng.randint(10, 20) * n
+    sched = []
+    mode = rng.random()
+    if mode < 0.35:
+        # nearly sequential: whole commands one after the other with a little overlap (the plain refusal scenarios)
+        order = list(range(n))
+        rng.shuffle(order)
+        for i in order:
+            sched += [i] * rng.randint(3, 14)
+    elif mode < 0.8:
+        while len(sched) < L:
+            sched += [rng.randrange(n)] * rng.randint(1, 9)
+    else:
+        sched = [rng.randrange(n) for _ in range(L)]
+    c = {"procs": procs, "sched": sched, "ndirs": nd, "src": "path%d" % nd}
+    if rng.random() < 0.15:
+        c["base"] = "abs"
+    return c
+
+
 def phase_case(rng):
     n = rng.randint(2, 5)
     procs = []
@@ -250,17 +314,20 @@ def evaluate(ctx, cases):
     for c, r, a in zip(cases, impl, answers):
         iv, mv = impl_view(r), model_view(a)
         inp = {"procs": c["procs"], "sched": r["executed"], "base": c.get("base", "default")}
+        if c.get("ndirs", 1) > 1:
+            inp["ndirs"] = c["ndirs"]
         if c.get("phases"):
             inp["phases"] = c["phases"]
         n = len(c["procs"])
         refused = any(o.startswith("failed") for o in r["outcomes"])
         nontrivial = lifetimes_overlap(r, n) or refused
-        ctx.case(key={"procs": c["procs"], "sched": r["executed"], "base": c.get("base", "default")},
+        ctx.case(key={"procs": c["procs"], "sched": r["executed"], "base": c.get("base", "default"), "ndirs": c.get("ndirs", 1)},
                  nontrivial=nontrivial,
                  sample={"input": inp, "outcomes": r["outcomes"], "violations": r["violations"][:2]}
                  if (ctx.evaluations % 499 == 0 or (r["violations"] and ctx.evaluations % 7 == 0)) else None)
         ctx.hist("src=" + c.get("src", "?"))
         ctx.hist("nprocs=%d" % n)
+        ctx.hist("nstacks=%d" % c.get("ndirs", 1))
         ctx.hist("kinds=" + "".join(sorted(p["kind"] for p in c["procs"])))
         if any(p.get("lp") is not None for p in c["procs"]):
             ctx.hist("with_parent_child")
@@ -373,7 +440,8 @@ def run(ctx):
         evaluate(ctx, three[k:k + 600])
     nrand3, nrand4, nphase = ctx.n(500, 4000), ctx.n(150, 6000), ctx.n(300, 3000)
     batch = [random_case(ctx.rng, 3) for _ in range(nrand3)] + [random_case(ctx.rng, 4) for _ in range(nrand4)] + \
-            [random_case(ctx.rng, 2) for _ in range(ctx.n(100, 1000))] + [phase_case(ctx.rng) for _ in range(nphase)]
+            [random_case(ctx.rng, 2) for _ in range(ctx.n(100, 1000))] + [phase_case(ctx.rng) for _ in range(nphase)] + \
+            [path_case(ctx.rng) for _ in range(ctx.n(400, 6000))]
     for k in range(0, len(batch), 600):
         if ctx.out_of_time():
             ctx.note("time budget reached inside the random schedules")
@@ -392,6 +460,8 @@ def run(ctx):
 def replay(ctx, rp):
     c = rp["input"]
     case = {"procs": c["procs"], "sched": c["sched"], "base": c.get("base", "default"), "drain": True}
+    if c.get("ndirs", 1) > 1:
+        case["ndirs"] = c["ndirs"]
     if c.get("phases"):
         case["phases"] = c["phases"]
     r = common.in_child(run_case, case)
